@@ -120,6 +120,15 @@ def const_truth(expr):
         return True if re.sub(r'%[sdrf]', '', expr.left.value) else None
     if isinstance(expr, ast.JoinedStr):
         return True if any(isinstance(v, ast.Constant) and v.value for v in expr.values) else None
+    if isinstance(expr, ast.BinOp) and isinstance(expr.op, ast.Add):
+        # string concatenation: a non-empty piece makes the whole non-empty
+        def text_piece(x):
+            return (isinstance(x, ast.Constant) and isinstance(x.value, str)) or isinstance(x, ast.JoinedStr) or (
+                isinstance(x, ast.Call) and isinstance(x.func, ast.Attribute) and x.func.attr == 'format') or (
+                isinstance(x, ast.BinOp) and isinstance(x.op, (ast.Mod, ast.Add)) and (text_piece(x.left) or text_piece(x.right)))
+        for side in (expr.left, expr.right):
+            if text_piece(side) and const_truth(side) is True:
+                return True
     return None
 
 
